@@ -7,5 +7,5 @@ META = dict(trusted_base=COMMON_TB + [
 
 
 def items(tier):
-    return contract_items("C10", tier) + [dict(kind="lemma", spec="lemmas.l_c10:lemmas"), dict(kind="lemma", spec="lemmas.l_c10:roundtrip"),
+    return contract_items("C10", tier) + [dict(kind="lemma", spec="lemmas.l_c10:lemmas"), dict(kind="lemma", spec="lemmas.l_c10:roundtrip"), dict(kind="lemma", spec="lemmas.l_c10:roundtrip_inverse"),
                                     dict(kind="lemma", spec="lemmas.l_c10:canary"), dict(kind="bounded", spec="lemmas.b_c10:differential")]
